@@ -332,7 +332,70 @@ def check_planar(ctx, R="C04.planar"):
         ctx.finding(R, f, "_isPlanarBox definition", "_isPlanarBox no longer requires BoxShape and pitch == 0 and roll == 0 (conjunction)")
 
 
+
+def check_distance(ctx, R="C04.distance"):
+    ctx.rule(
+        R,
+        "the minimum distance between two solids is never positive when they overlap: the surface-to-surface query (fcl.distance) "
+        "is exact for two convex operands only -- a solid strictly inside a non-convex one has a positive surface gap -- so in "
+        "MeshVolumeRegion.minimumDistanceTo a positive result of that query is returned only when both operands are convex or the "
+        "exact overlap test (self.intersects(other)) denies an overlap; the planar fast path of Object.minimumDistanceTo applies only "
+        "to two planar boxes at the same height",
+    )
+    model = ctx.model
+    fn = model.func(RG, "MeshVolumeRegion.minimumDistanceTo")
+    a, b = fn.args.args[0].arg, fn.args.args[1].arg
+    q = [c for c in walk_local(fn) if isinstance(c, ast.Call) and dotted(c.func) == "fcl.distance"]
+    if not q:
+        raise AnalysisError("shape not recognised: the distance query of MeshVolumeRegion.minimumDistanceTo")
+    dvars = set(lib.locals_assigned(fn, lambda v: isinstance(v, ast.Call) and dotted(v.func) == "fcl.distance"))
+    n = 0
+    for r in lib.returns_of(fn):
+        if r.value is None:
+            continue
+        direct = isinstance(r.value, ast.Call) and dotted(r.value.func) == "fcl.distance"
+        via = isinstance(r.value, ast.Name) and r.value.id in dvars
+        if not (direct or via):
+            continue
+        n += 1
+        d = unparse(r.value)
+        # is this return reachable with: the surface gap positive, an operand non-convex, the solids overlapping?
+        reachable = False
+        for nonconvex in (f"{a}.isConvex", f"{b}.isConvex"):
+            env = {nonconvex: False, f"{a}.intersects({b})": True, f"{b}.intersects({a})": True}
+            for txt in (f"{d} > 0", f"0 < {d}"):
+                env[txt] = True
+            for txt in (f"{d} <= 0", f"0 >= {d}"):
+                env[txt] = False
+            conds = lib.guard_tests(r, fn)
+            blocked = any((lambda v: v is not None and v != p)(lib.tri_eval(t, env)) for t, p in conds)
+            if not blocked:
+                reachable = True
+        if reachable:
+            ctx.finding(
+                R,
+                r,
+                f"surface gap returned for non-convex overlap {norm_text(r, 40)}",
+                f"MeshVolumeRegion.minimumDistanceTo returns the surface-to-surface distance `{d}` also when it is positive, an operand is non-convex and the solids overlap: a solid "
+                f"lying strictly inside a non-convex solid (no surface contact) is reported at a positive distance although the two overlap",
+            )
+        else:
+            ctx.ok(R, r, "a positive surface gap is returned only for two convex operands or after the exact overlap test denied an overlap")
+    ctx.floor(R, n, 1, "returns of the surface distance query")
+    od = model.func(OT, "Object.minimumDistanceTo")
+    o1, o2 = od.args.args[0].arg, od.args.args[1].arg
+    for r in lib.returns_of(od):
+        if r.value is None or "_boundingPolygon" not in unparse(r.value):
+            continue
+        conds = lib.guard_tests(r, od)
+        if lib.holds(conds, f"{o1}._isPlanarBox and {o2}._isPlanarBox and {o1}.z == {o2}.z", f"{o1}._isPlanarBox and {o2}._isPlanarBox and {o1}.position.z == {o2}.position.z"):
+            ctx.ok(R, r, "the footprint distance answers only for two planar boxes at the same height")
+        else:
+            ctx.finding(R, r, "planar distance fast path", f"Object.minimumDistanceTo answers `{norm_text(r.value, 60)}` without requiring both objects to be planar boxes at the same height: the distance of their footprints is not the distance of the solids")
+
+
 def check(ctx):
+    ctx.run(check_distance)
     ctx.run(check_computed)
     ctx.run(check_transforms)
     ctx.run(check_polarity)
